@@ -28,3 +28,22 @@ func VerifPatchDeltaWriter(base io.ReaderAt, delta io.Reader) ([]byte, uint, plu
 	sz, h, err := patchDeltaWriter(dst, base, bufio.NewReader(delta), plumbing.BlobObject, nil, format.SHA1)
 	return dst.Bytes(), sz, h, err
 }
+
+// VerifFindMatches returns, for every target offset at which DiffDelta's
+// index proposes a source offset with a non-empty match, the pair
+// (target offset, source offset): the candidate function of the delta index.
+func VerifFindMatches(src, tgt []byte) [][2]int {
+	idx := new(deltaIndex)
+	idx.init(src)
+	var out [][2]int
+	if len(src) < blksz {
+		return out
+	}
+	for i := 0; i+s <= len(tgt); i++ {
+		off, l := idx.findMatch(src, tgt, i)
+		if l > 0 {
+			out = append(out, [2]int{i, off})
+		}
+	}
+	return out
+}
